@@ -190,8 +190,91 @@ def make_cases(rng, n_combos, nsteps, paths_per=2):
             c["path"] = gen_path(rng, pk, n, cfg["eps_y"], nsteps)
             L = len(c["path"])
             c["fd_steps"] = sorted(set([L - 1, L // 2] if pk != "huge" else [L - 1]))
-            c["fd_h"] = 1e-4 * cfg["eps_y"]
+            c["fd_h"] = 2e-3 * cfg["eps_y"]
             # spectral-reducible configurations are also run with solver="newton" and compared
             c["compare_solver"] = (combo[0] in ("VonMises", "Hill") and combo[2] == "none" and combo[4] == 0)
             cases.append(c)
     return cases
+
+
+def make_adversarial(rng, n):
+    """User-written softening hardening R = -H p (accepted by the constructor): the local Newton
+    steps towards negative multipliers, so only the clamp / bound keep dGamma >= 0.  Only
+    `dGamma >= 0` / `p monotone` / purity are checked on these (they need not converge)."""
+    cases = []
+    for i in range(n):
+        ek = rng.choice(ELASTICS)
+        el = gen_elastic(rng, ek)
+        E = stiffness_scale(el)
+        sy = r3(rng, 100.0, 600.0)
+        yk = rng.choice(["VonMises", "Hill"])
+        cfg = gen_config(rng, (yk, "none", "none", "none", 0, rng.choice(MODES), ek))
+        E = stiffness_scale(cfg["elastic"])
+        cfg["hardening"] = {"kind": "Softening", "H": r3(rng, 2 * E, 40 * E)}
+        cfg["solver"] = "auto" if i % 3 else "newton"
+        nn = 6 if cfg["mode"] == "3D" else 3
+        pk = ["proportional", "reversal", "huge"][i % 3]
+        cfg["id"] = "adv%02d-%s-softening-%s-%s-%s" % (i, yk, cfg["mode"], cfg["solver"], pk)
+        cfg["combo"] = [yk, "Softening", "none", "none", 0, cfg["mode"], ek]
+        cfg["path_kind"] = pk
+        cfg["path"] = gen_path(rng, pk, nn, cfg["eps_y"], 8)
+        cfg["fd_steps"] = []
+        cfg["compare_solver"] = False
+        cases.append(cfg)
+    return cases
+
+
+def make_spectral(rng, n):
+    """Reducible configurations with LINEAR hardening and no rate law: the scalar return is
+    compared with the executable fixed-point instance of the Coq model."""
+    cases = []
+    for i in range(n):
+        yk = ["VonMises", "Hill"][i % 2]
+        ek = ELASTICS[i % 3]
+        cfg = gen_config(rng, (yk, "Linear", "none", "none", 0, "3D", ek))
+        if i % 5 == 4:
+            cfg["hardening"] = {"kind": "Linear", "H": 0.0}       # perfect plasticity
+        pts = []
+        for j in range(3):
+            d = unit_dir(rng, 6)
+            amp = cfg["eps_y"] * rng.choice([0.5, 1.5, 3.0, 10.0, 60.0])
+            d2 = unit_dir(rng, 6)
+            pts.append({"eps": [amp * x for x in d], "epsP": [0.2 * cfg["eps_y"] * (x - (sum(d2[:3]) / 3 if k < 3 else 0)) for k, x in enumerate(d2)] if j else [0.0] * 6,
+                        "pOld": float("%.3g" % (rng.uniform(0, 5) * cfg["eps_y"])) if j else 0.0})
+        cfg["points"] = pts
+        cfg["id"] = "sp%02d-%s-%s" % (i, yk, ek)
+        cases.append(cfg)
+    return cases
+
+
+def make_sims(rng, n):
+    sims = []
+    for i in range(n):
+        mode = ["PE", "3D", "PS"][i % 3] if n > 2 else ["PE", "PS"][i % 2]
+        yk = rng.choice(["VonMises", "Hill", "DruckerPrager"])
+        hk = rng.choice(["Linear", "Voce"])
+        kk = rng.choice(["none", "Prager"])
+        rk = rng.choice(["none", "none", "Norton1"])
+        cfg = gen_config(rng, (yk, hk, kk, rk, rng.choice([0, 0, 1]), mode, "iso"))
+        L = 10.0
+        u1 = cfg["eps_y"] * L
+        ops = []
+        lvl = 0.0
+        for k in range(rng.randint(4, 7)):
+            lvl += u1 * rng.uniform(0.4, 1.2) * (1 if k < 4 else -1)
+            ops.append(["solve", float("%.6g" % lvl)])
+            r = rng.random()
+            if r < 0.3:
+                ops.append(["solve", float("%.6g" % (lvl * 1.1))])      # a second Solve without saving
+            if r > 0.6:
+                ops.append(["result", rng.choice(["Svm", "Sxx", "p"])])
+            if rng.random() < 0.35:
+                ops.append(["assemble"])
+            ops.append(["save"])
+            if rng.random() < 0.3:
+                ops.append(["set", rng.choice([-1, 0, k // 2])])
+        cfg["ops"] = ops
+        cfg["elem"] = rng.choice(["QUAD4", "TRI3"])
+        cfg["id"] = "sim%02d-%s-%s" % (i, mode, "/".join([yk, hk, kk, rk]))
+        sims.append(cfg)
+    return sims
